@@ -102,8 +102,11 @@ def main():
     h4 = hp("hist-hook-and-macro", 'hook greet;\nmacro greet() { "hello "; }\nparser { greet(); "world"; }\n')
     h5 = hp("hist-greedy-three", 'out int which;\nparser { greedy case { /[a-z]+/ -> { which = 1; } prio 1 "define" -> { which = 2; } prio 1 /defin[e]/ -> { which = 3; } } ";"; }\n')
     h6 = hp("hist-macro-args", 'out int a;\nout int b;\nmacro two(out x, expr e) { x = e; "k"; }\nmacro one(out y) { two(y, [y + 1]); }\nparser { one(a); one(b); }\n')
-    groups += [[h1, h2, h3, h4], [h4, h5, h1, h3], [h6, h1, h6, h2]]
-    progs = progs + [h1, h2, h3, h4, h5, h6]
+    # a regex whose alphabet keeps two disjoint inverted sets (which one became the Else transition used to depend on set order)
+    h7 = hp("hist-two-inverted-sets", 'parser { b/ff([6f-92]+[^00-72][^2e-fe]{2,2})+/; }\n', ["-feof-support"])
+    h8 = hp("hist-two-inverted-sets-text", 'out str[8] s;\nparser { s += /[^a-m]+[^n-z]/; /[^a-m][^n-z]{2}/; "."; }\n')
+    groups += [[h1, h2, h3, h4], [h4, h5, h1, h3], [h6, h1, h6, h2], [h7, h8, h5, h7]]
+    progs = progs + [h1, h2, h3, h4, h5, h6, h7, h8]
     with mp.Pool(min(14, os.cpu_count() or 4)) as pool:
         results = pool.map(work, [(g, ck.seed, ck.tier) for g in groups], chunksize=1)
     st = {"programs": len(progs), "histories_compared": 0}
